@@ -123,6 +123,15 @@ def cellunions(acc, shard, nshards, tier):
                 k += 1
                 if k % nshards == shard:
                     harness.process(mod, acc, "text", {"text": "||".join(perm)}, "L1-alternative-orders")
+        # alternatives that overlap or touch (">1||==1", "<=1||>=5||>1"): every ordered pair and triple of single ranges
+        runs = [mask_text(((1 << (j - i + 1)) - 1) << i, pts) for i in range(n) for j in range(i, n) if not (i == 0 and j == n - 1)]
+        for r in (2, 3):
+            if r == 3 and pts != ["1", "2", "3"] and tier == "quick":
+                continue
+            for combo in itertools.product(runs, repeat=r):
+                k += 1
+                if k % nshards == shard:
+                    harness.process(mod, acc, "text", {"text": "||".join(combo)}, "L1-alternative-orders")
 
 
 def fixed(acc):
